@@ -223,7 +223,7 @@ DIMS = [
     ("align", ["none", "a", "s", "as", "origin", "s+origin"]),
     ("n_to_align", [-1, 4, 6]),
     ("downsample", [None, 5]),
-    ("motion_filter", [None, (0.5, 30.0), (100.0, 40.0)]),
+    ("motion_filter", [None, (0.5, 30.0), (100.0, 40.0), (2.5, 170.0)]),
     ("t_max_diff", [0.01, 0.3]),
     ("t_offset", [0.0, 0.125, 1.0]),
     ("crop", [None, (1.5, 3.5)]),
@@ -242,6 +242,10 @@ def normalise(pt):
         pt["epoch"] = 0.0
     if pt["align"] in ("none", "origin"):
         pt["n_to_align"] = -1
+    if pt.get("geometry"):
+        pt["fmt"], pt["epoch"] = "tum", 0.0
+        if pt["t_offset"] == 1.0:
+            pt["t_offset"] = 0.0
     return pt
 
 
@@ -297,7 +301,8 @@ def run_point(pt):
     if err.shape != exp.shape:
         return ["stored %d error values, the processed trajectories have %d "
                 "pose pairs" % (err.size, exp.size)], "values"
-    tol = tol_for(rel, 10) * (1000.0 if unit == "mm" else 1.0)
+    tol = tol_for(rel, 1e5 if pt.get("geometry") == "f" else 10) * (
+        1000.0 if unit == "mm" else 1.0)
     if np.abs(err - exp).max() > tol:
         k = int(np.argmax(np.abs(err - exp)))
         msgs.append("stored value %d = %.12g, reference pipeline gives %.12g"
@@ -383,7 +388,7 @@ def lattice_points(ctx):
         # per secondary dimension)
         sub = [("relation", DIMS[0][1]), ("align", DIMS[1][1]),
                ("n_to_align", [-1, 4, 6]), ("downsample", [None, 5]),
-               ("motion_filter", [None, (0.5, 30.0)]),
+               ("motion_filter", [None, (0.5, 30.0), (2.5, 170.0)]),
                ("t_max_diff", [0.01, 0.3]), ("t_offset", [0.0, 0.125, 1.0]),
                ("crop", [None, (1.5, 3.5)]), ("project", [None, "xz"]),
                ("unit", [None, "compatible"]), ("fmt", ["tum"]),
@@ -399,6 +404,21 @@ def lattice_points(ctx):
             q = dict(base)
             q.update(p)
             pts.append(q)
+    # geometry variants of the estimate (mirrored / far from the origin / the
+    # reference file itself) x
+    # every alignment mode: the stored values must come from the
+    # least-squares alignment also where it needs the reflection handling
+    # and where the coordinates are large compared with the extent
+    sub3 = [("geometry", ["m", "f", "same"]), ("relation", DIMS[0][1]),
+            ("align", DIMS[1][1]), ("n_to_align", [-1, 4, 6]),
+            ("downsample", [None, 5]), ("project", [None, "xy", "xz"]),
+            ("t_max_diff", [0.01, 0.3])]
+    base = {"motion_filter": None, "t_offset": 0.0, "crop": None,
+            "unit": None, "fmt": "tum", "epoch": 0.0}
+    for p in lattice.product(sub3):
+        q = dict(base)
+        q.update(p)
+        pts.append(q)
     # de-duplicate after normalisation
     seen, out = set(), []
     for p in pts:
